@@ -71,6 +71,13 @@ pub trait CrashSpec {
     fn after_reopen(&self, _dir: &Path) -> Result<(), String> {
         Ok(())
     }
+    /// Is the logical content `got` (from `reopen`) the content `sync` recorded at a sync point?  Default: byte equality.
+    /// A spec whose structure verifies per-record checksums lazily may accept a content in which some records of
+    /// `sync` are REFUSED (read returns an error) — damage that is detected and refused at record granularity is a
+    /// refusal in the sense of the property; a record that is served must always be byte-identical.
+    fn same_state(&self, got: &[u8], sync: &[u8]) -> bool {
+        got == sync
+    }
     /// sector sizes used to tear unsynced writes
     fn sector_sizes(&self, tier: Tier) -> Vec<usize> {
         tier.pick(vec![512], vec![512, 64])
@@ -348,7 +355,7 @@ impl<S: CrashSpec> Crash<S> {
                 if reached < states.len() {
                     reached += 1;
                 }
-                if states[..reached].iter().any(|(_, st)| *st == s) {
+                if states[..reached].iter().any(|(_, st)| self.spec.same_state(&s, st)) {
                     Err(Fail::new("wrong_after_recovery", format!("the image ({kind}, log prefix {prefix}) reopened with an acceptable content, but using the recovered structure went wrong: {e}")).with_class(kind.to_string()))
                 } else {
                     Err(Fail::new("unknown_state_after_reopen", format!("reopening the image ({kind}, log prefix {prefix}) succeeded with a logical content ({} bytes) that equals no sync point reached so far (and later use failed: {e})", s.len())).with_class(kind.to_string()))
@@ -361,8 +368,9 @@ impl<S: CrashSpec> Crash<S> {
                 if reached < states.len() {
                     reached += 1;
                 }
-                match states[..reached].iter().position(|(_, st)| *st == s) {
-                    Some(i) => Ok(format!("state_of_sync_{i}")),
+                match states[..reached].iter().position(|(_, st)| self.spec.same_state(&s, st)) {
+                    Some(i) if states[i].1 == s => Ok(format!("state_of_sync_{i}")),
+                    Some(i) => Ok(format!("state_of_sync_{i}_with_refused_records")),
                     None => {
                         let later = states.iter().position(|(_, st)| *st == s);
                         Err(Fail::new(
